@@ -44,12 +44,28 @@ pub fn check_program(ctx: &Ctx, name: &str, p: &Program, split: bool, use_cli: b
         }
     }
     let dups: Vec<String> = defs.iter().filter(|(_, n)| **n >= 2).map(|(k, _)| k.clone()).collect();
+    // (a load or store that names a label instead of an address - `lw a0, table` - is written as raw text)
+    let raw_label_use = |r: &str| -> Option<String> {
+        let toks: Vec<&str> = r.split(|c: char| c.is_whitespace() || c == ',').filter(|t| !t.is_empty()).collect();
+        if toks.len() >= 3 && ["lw", "lh", "lb", "lhu", "lbu", "sw", "sh", "sb"].contains(&toks[0]) {
+            let t = toks[2];
+            let ident = t.chars().next().is_some_and(|c| c.is_alphabetic() || c == '_') && t.chars().all(|c| c.is_alphanumeric() || c == '_');
+            // (the exact register spellings are no labels)
+            if ident && !ABI.contains(&t) && !(t.starts_with('x') && t[1..].parse::<u8>().is_ok()) {
+                return Some(t.to_string());
+            }
+        }
+        None
+    };
     let undefined: Vec<String> = p
         .lines
         .iter()
-        .filter_map(|l| if let Line::Ins(i) = l { i.target_label() } else { None })
-        .filter(|t| !defs.contains_key(*t))
-        .map(str::to_string)
+        .filter_map(|l| match l {
+            Line::Ins(i) => i.target_label().map(str::to_string),
+            Line::Raw(r) => raw_label_use(r),
+            _ => None,
+        })
+        .filter(|t| !defs.contains_key(t))
         .collect();
     if !dups.is_empty() {
         acc.count("programs_with_a_duplicate_label", 1);
